@@ -268,3 +268,75 @@ Proof.
         -- lia.
       * rewrite <- (fr_tip _ _ F16). destruct s6; exact F16.
 Qed.
+
+(** comparePopScore as a whole *)
+Lemma quiet_compare : forall sc cr s c s' r,
+    quiet s -> c_compare sc cr s c = Ok (s', r) ->
+    quiet s' /\ same_static (cores s) (cores s') /\ root _ _ s' = root _ _ s /\
+    (0 <= r -> tip _ _ s' = tip _ _ s /\ napp _ _ s' = napp _ _ s) /\ (r < 0 -> c = Some (tip _ _ s')).
+Proof.
+  intros sc cr s c s' r Q H. pose proof Q as (W & Ta & Hn). unfold c_compare, compare in H.
+  destruct c as [c|]; [|inversion H; subst; split; [exact Q|split; [apply same_static_refl|split; [reflexivity|split; [auto|lia]]]]].
+  destruct (find ccmd (blocks pstate ccmd s) c) as [bc|] eqn:Fc; [|discriminate].
+  destruct (find ccmd (blocks pstate ccmd s) (tip pstate ccmd s)) as [bt|] eqn:Ft; [|discriminate].
+  assert (Triv : forall x : cst * Z, Ok (s, 1) = Ok x -> quiet (fst x) /\ same_static (cores s) (cores (fst x)) /\ root _ _ (fst x) = root _ _ s /\
+                 (0 <= snd x -> tip _ _ (fst x) = tip _ _ s /\ napp _ _ (fst x) = napp _ _ s) /\ (snd x < 0 -> Some c = Some (tip _ _ (fst x)))).
+  { intros x Hx. inversion Hx; subst x. cbn. split; [exact Q|split; [apply same_static_refl|split; [reflexivity|split; [auto|lia]]]]. }
+  destruct (is_failed ccmd bc); [exact (Triv (s', r) H)|].
+  destruct (N.eqb (tip pstate ccmd s) c) eqn:Etc; [exact (Triv (s', r) H)|]. apply N.eqb_neq in Etc.
+  destruct (on_active_chain pstate ccmd s c); [exact (Triv (s', r) H)|].
+  assert (Fork : compare_fork pstate ccmd cexec cunexec sc cr s c bc bt = Ok (s', r) ->
+                 quiet s' /\ same_static (cores s) (cores s') /\ root _ _ s' = root _ _ s /\
+                 (0 <= r -> tip _ _ s' = tip _ _ s /\ napp _ _ s' = napp _ _ s) /\ (r < 0 -> Some c = Some (tip _ _ s'))).
+  { intros HF. destruct (quiet_compare_fork _ _ _ _ _ _ _ _ Q HF) as (Q' & F & Hp & Hm).
+    destruct F as [_ FS FR _]. cbn [blocks root] in FS, FR. unfold cores in FS. cbn [blocks] in FS. fold (cores s') in FS.
+    split; [exact Q'|]. split; [exact FS|]. split; [exact FR|]. split.
+    - intros Hr. specialize (Hp Hr). split; [exact Hp|].
+      destruct Q' as (W' & _ & Hn'). rewrite Hp, FR in Hn'. pose proof (fun j => hgt_static _ _ j FS) as HS.
+      rewrite ?HS in Hn'. apply N2Z.inj. change (map core (blocks pstate ccmd s)) with (cores s) in Hn'. lia.
+    - intros Hr. rewrite (Hm Hr). reflexivity. }
+  destruct (anc_at ccmd (blocks pstate ccmd s) _ c (b_h ccmd bt)) as [a|]; [|exact (Fork H)].
+  destruct (N.eqb a (tip pstate ccmd s)); [|exact (Fork H)].
+  (* the candidate is a successor of the tip *)
+  dbind H. destruct a0 as [s1 ok].
+  destruct (apply_arith _ _ _ _ _ W E) as (F1 & T1 & N1f). destruct F1 as [W1 S1 R1 Tp1].
+  destruct ok; inversion H; subst s' r; clear H.
+  - destruct (T1 eq_refl) as (A1 & B1 & C1).
+    split; [|split; [exact S1|split; [exact R1|split; [lia|reflexivity]]]].
+    unfold quiet, wf, cores. cbn [blocks root tip napp]. fold (cores s1). split; [exact W1|]. split; [apply B1; exact Etc|].
+    pose proof (fun j => hgt_static _ _ j S1) as HS. rewrite R1, ?HS. lia.
+  - destruct (N1f eq_refl) as (A1 & B1).
+    split; [|split; [exact S1|split; [exact R1|split; [intros _; split; [exact Tp1|exact A1]|lia]]]].
+    pose proof (fun j => hgt_static _ _ j S1) as HS.
+    split; [exact W1|]. rewrite Tp1, R1, A1, ?HS. split; [apply B1; exact Ta|exact Hn].
+Qed.
+
+(** ** every history keeps the quiet invariant *)
+Lemma quiet_run_all : forall ops s s', quiet s -> run s ops = Ok s' -> quiet s'.
+Proof.
+  induction ops as [|o r IH]; intros s s' Q H; cbn in H.
+  - inversion H; subst. exact Q.
+  - destruct (step_op s o) as [s1|] eqn:E; cbn in H; [|discriminate].
+    eapply IH; [|exact H]. destruct o as [i par dup gs|to|c sc cr]; cbn in E.
+    + eapply quiet_connect; eassumption.
+    + destruct (c_setState s to) as [[s2 ok]|] eqn:E2; cbn in E; [|discriminate]. inversion E; subst.
+      eapply quiet_setState; eassumption.
+    + destruct (c_compare sc cr s c) as [[s2 rr]|] eqn:E2; cbn in E; [|discriminate]. inversion E; subst.
+      eapply quiet_compare; eassumption.
+Qed.
+
+Theorem reachable_quiet : forall base s, reachable base s -> quiet s /\ forall j, is_act (cores s) j <-> In j (chain s).
+Proof.
+  intros base s (r & h & ops & R). assert (Q : quiet s) by (eapply quiet_run_all; [apply quiet_init|exact R]).
+  split; [exact Q|apply applied_exactly; exact Q].
+Qed.
+
+(** C01, for ALL histories (connectBlock, setState, comparePopScore with any scorer) *)
+Theorem history_independence : forall base s1 s2,
+    reachable base s1 -> reachable base s2 -> chain_gs s1 = chain_gs s2 ->
+    Permutation (pst _ _ s1) (pst _ _ s2) /\ (forall x, count_ref x (pst _ _ s1) = count_ref x (pst _ _ s2)).
+Proof.
+  intros base s1 s2 R1 R2 Hc. apply history_independence_applied with (base := base); [exact R1|exact R2|].
+  eapply perm_trans; [apply active_items_chain; exact (proj1 (reachable_quiet _ _ R1))|].
+  rewrite Hc. symmetry. apply active_items_chain. exact (proj1 (reachable_quiet _ _ R2)).
+Qed.
